@@ -561,7 +561,9 @@ func planC06(g *Gen, tier string) GenOutput {
 		nc := 1 + g.r.Intn(3)
 		cols := []Col{}
 		for j := 0; j < nc; j++ {
-			kind := []string{"int", "f64", "pstr", "bool"}[g.r.Intn(4)]
+			kind := []string{"int", "f64", "pstr", "bool", "int", "f64", "pstr", "width", "width", "f32"}[g.r.Intn(10)]
+			// one integer width per column: the property speaks of columns holding cells of one kind
+			width := []string{"int8", "int16", "int32", "int64", "uint", "uint8", "uint16", "uint32", "uint64"}[g.r.Intn(9)]
 			c := Col{Key: BStr(fmt.Sprintf("s%d", j)), Name: BStr(fmt.Sprintf("s%d", j)), Data: []Cell{}}
 			dup := 2 + g.r.Intn(4)
 			nilFirst := g.chance(0.3)
@@ -575,6 +577,15 @@ func planC06(g *Gen, tier string) GenOutput {
 					c.Data = append(c.Data, F64Cell([]float64{9.75, 10.25, 100.5, -2, 0.5, 33}[g.r.Intn(dup+1)]))
 				case kind == "pstr":
 					c.Data = append(c.Data, StrCell([]string{"b", "a", "ab", "B", "é", "", "a b"}[g.r.Intn(dup+1)]))
+				case kind == "width":
+					v := []int64{9, 10, 100, 5, 2, 33}[g.r.Intn(dup+1)]
+					if width[0] == 'u' {
+						c.Data = append(c.Data, UintCell(width, uint64(v)))
+					} else {
+						c.Data = append(c.Data, IntCell(width, v-20))
+					}
+				case kind == "f32":
+					c.Data = append(c.Data, F32Cell([]float32{9.75, 10.25, 100.5, -2, 0.5, 33}[g.r.Intn(dup+1)]))
 				default:
 					c.Data = append(c.Data, BoolCell(g.chance(0.5)))
 				}
@@ -676,7 +687,7 @@ var locAlphabet = []Cell{IntCell("int", 1), IntCell("int", 2), StrCell("1"), Str
 func planC08(g *Gen, tier string) GenOutput {
 	res := GenOutput{Stats: map[string]int{}}
 	spec := FrameSpec{MinRows: 0, MaxRows: 5, MinCols: 0, MaxCols: 4, Kinds: []string{"int", "pstr", "f64", "mixed", "f64", "time", "bool"}, NilProb: 0.15, Wild: true}
-	kinds := []string{"row", "head", "tail", "rowslice", "iloc", "loc", "filter", "multiselect", "droprow", "dropcolumn", "columnnames", "nrows", "ncols"}
+	kinds := []string{"row", "head", "tail", "rowslice", "iloc", "loc", "filter", "multiselect", "droprow", "dropcolumn", "columnnames", "nrows", "ncols", "select", "colat", "series", "string"}
 	// exhaustive boundary stream on small frames
 	maxRows := 4
 	for n := 0; n <= maxRows; n++ {
@@ -1229,6 +1240,42 @@ func planC20(g *Gen, tier string) GenOutput {
 			{K: "columnnames", F: 0}}
 		res.Hists = append(res.Hists, RunHist(fmt.Sprintf("must-fail-and-keep rows=%d", n), []Frame{f}, bad))
 		bump(res.Stats, "must-fail-and-keep")
+	}
+	// LinePlot / BarPlot: numeric columns of every shape (empty, one point, constant, NaN, infinities, huge),
+	// columns that are not float64, names that do not exist, an output path that cannot be created
+	plotVals := [][]float64{{}, {1}, {2, 2, 2}, {1, 2, 3, 4}, {3, -1, 2.5}, {0, 0}, {math.NaN(), 1}, {math.Inf(1), 1, 2}, {math.Inf(-1), math.Inf(1)},
+		{1e308, -1e308}, {math.NaN(), math.NaN()}, {-1, -2, -3}, {5e-324, 0}, {1, 2, 3, 4, 5, 6, 7, 8, 9, 10, 11, 12}}
+	for i, xs := range plotVals {
+		x := Col{Key: "x", Name: "x", Data: []Cell{}}
+		y := Col{Key: "y", Name: "y", Data: []Cell{}}
+		s := Col{Key: "s", Name: "s", Data: []Cell{}}
+		k := Col{Key: "k", Name: "k", Data: []Cell{}}
+		for j, v := range xs {
+			x.Data = append(x.Data, F64Cell(v))
+			other := plotVals[(i+3)%len(plotVals)]
+			if len(other) == 0 {
+				other = []float64{7}
+			}
+			y.Data = append(y.Data, F64Cell(other[j%len(other)]))
+			s.Data = append(s.Data, StrCell("t"))
+			k.Data = append(k.Data, IntCell("int", int64(j)))
+		}
+		f := mkFrame(x, y, s, k)
+		ops := []Op{}
+		for _, pathOK := range []bool{true, false} {
+			ops = append(ops, Op{K: "plot", F: 0, S1: "x", S2: "y", PathOK: pathOK}, Op{K: "plot", F: 0, Bar: true, S1: "x", PathOK: pathOK},
+				Op{K: "plot", F: 0, S1: "y", S2: "x", PathOK: pathOK}, Op{K: "plot", F: 0, Bar: true, S1: "y", PathOK: pathOK})
+		}
+		ops = append(ops, Op{K: "plot", F: 0, S1: "x", S2: "s", PathOK: true}, Op{K: "plot", F: 0, S1: "k", S2: "x", PathOK: true},
+			Op{K: "plot", F: 0, S1: "x", S2: "zz", PathOK: true}, Op{K: "plot", F: 0, S1: "zz", S2: "x", PathOK: true},
+			Op{K: "plot", F: 0, Bar: true, S1: "s", PathOK: true}, Op{K: "plot", F: 0, Bar: true, S1: "k", PathOK: true},
+			Op{K: "plot", F: 0, Bar: true, S1: "zz", PathOK: true}, Op{K: "string", F: 0}, Op{K: "select", F: 0, S1: "zz"},
+			Op{K: "colat", F: 0, S1: "x", N: int64(len(xs))}, Op{K: "colat", F: 0, S1: "x", N: -1}, Op{K: "colat", F: 0, S1: "zz", N: 0},
+			Op{K: "series", F: 0, S1: "x", N: int64(len(xs))}, Op{K: "series", F: 0, S1: "x", N: -1}, Op{K: "series", F: 0, S1: "x", N: math.MinInt64},
+			Op{K: "colat", F: 0, S1: "x", N: math.MaxInt64}, Op{K: "groupbyother", F: 0, KeyKind: 3}, Op{K: "groupbyother", F: 0, KeyKind: 4},
+			Op{K: "groupbyother", F: 0, KeyKind: 0}, Op{K: "groupbyother", F: 0, KeyKind: 6})
+		res.Hists = append(res.Hists, RunHist(fmt.Sprintf("plots-and-views #%d", i), []Frame{f}, ops))
+		bump(res.Stats, "plots-and-views")
 	}
 	n := scale(tier, 350, 6000)
 	all := append(append(append([]string{}, deriveKinds...), editKinds...), observeKinds...)
